@@ -105,7 +105,7 @@ func newTopNCollector(size, skip int, sort search.SortOrder, reverse bool) *TopN
 	}
 
 	// these lookups traverse an interface, so do once up-front
-	hc.neededFields = sort.Fields()
+	hc.neededFields = uniqueFields(sort.Fields())
 
 	return hc
 }
@@ -138,7 +138,7 @@ func (hc *TopNCollector) Collect(ctx context.Context, aggs search.Aggregations,
 	searchContext := search.NewSearchContext(hc.backingSize+searcher.DocumentMatchPoolSize(), len(hc.sort))
 
 	// add fields needed by aggregations
-	hc.neededFields = append(hc.neededFields, aggs.Fields()...)
+	hc.neededFields = uniqueFields(append(hc.neededFields, aggs.Fields()...))
 	bucket := search.NewBucket("", aggs)
 
 	var hitNumber int
@@ -261,4 +261,21 @@ func (hc *TopNCollector) finalizeResults() error {
 	}
 
 	return err
+}
+
+// uniqueFields returns the fields without repetitions, keeping their order.
+// The document value reader visits a field once per occurrence in the list
+// it is given, so a repeated field (the sort field is also aggregated, or two
+// aggregations read the same field) would feed every value more than once.
+func uniqueFields(fields []string) []string {
+	seen := make(map[string]struct{}, len(fields))
+	var rv []string
+	for _, field := range fields {
+		if _, ok := seen[field]; ok {
+			continue
+		}
+		seen[field] = struct{}{}
+		rv = append(rv, field)
+	}
+	return rv
 }
